@@ -64,8 +64,8 @@ type (
 		// Active receivers
 		// RegisterActiveReceiver registers an active receiver for watermark propagation
 		RegisterActiveReceiver(sourceShardID history.ClusterShardID, receiver ActiveReceiver)
-		// UnregisterActiveReceiver removes an active receiver
-		UnregisterActiveReceiver(sourceShardID history.ClusterShardID)
+		// UnregisterActiveReceiver removes the active receiver of the shard if it is still the given one
+		UnregisterActiveReceiver(sourceShardID history.ClusterShardID, receiver ActiveReceiver)
 		// GetActiveReceiver returns the active receiver for the given source shard
 		GetActiveReceiver(sourceShardID history.ClusterShardID) (ActiveReceiver, bool)
 		// TerminatePreviousLocalReceiver checks if there is a previous local receiver for this shard and terminates it if needed
@@ -1093,11 +1093,15 @@ func (sm *shardManagerImpl) RegisterActiveReceiver(sourceShardID history.Cluster
 	sm.activeReceivers[sourceShardID] = receiver
 }
 
-// UnregisterActiveReceiver removes an active receiver
-func (sm *shardManagerImpl) UnregisterActiveReceiver(sourceShardID history.ClusterShardID) {
+// UnregisterActiveReceiver removes the active receiver of the shard if it is still the given one. A receiver that
+// cleans up must not remove the entry of a successor that has registered in the meantime, so the comparison and the
+// removal happen in one critical section.
+func (sm *shardManagerImpl) UnregisterActiveReceiver(sourceShardID history.ClusterShardID, receiver ActiveReceiver) {
 	sm.activeReceiversMu.Lock()
 	defer sm.activeReceiversMu.Unlock()
-	delete(sm.activeReceivers, sourceShardID)
+	if current, ok := sm.activeReceivers[sourceShardID]; ok && current == receiver {
+		delete(sm.activeReceivers, sourceShardID)
+	}
 }
 
 // GetActiveReceiver returns the active receiver for the given source shard
